@@ -134,8 +134,21 @@ func runSignIn(rep *vh.Report, env vh.Env, stacks []*stack, other *sut.AuthStack
 		} else {
 			sess.LifetimeDeadline = now.Add(time.Duration(2+r.Intn(23*60)) * time.Minute).Truncate(time.Second)
 		}
+		// near: the refresh deadline lies only seconds ahead. Which check the authenticator runs is then
+		// not for the harness to predict (the deadline may pass before it looks), so such a case is judged
+		// only when the refresh answer and the validation answer scripted for it agree: if neither
+		// confirms the session, no code may be issued whichever way the authenticator goes. (Added after
+		// seeded change C09i - a best-effort "early renewal" branch within 30 s of the deadline that never
+		// reaches validation - hid inside the guard band around the deadline.)
+		near := !due && r.Intn(5) == 0
 		if due {
 			sess.RefreshDeadline = now.Add(-time.Duration(1+r.Intn(120)) * time.Minute).Truncate(time.Second)
+		} else if near {
+			if r.Intn(3) == 0 {
+				sess.RefreshDeadline = now.Add(time.Duration(30+r.Intn(85)) * time.Second)
+			} else {
+				sess.RefreshDeadline = now.Add(time.Duration(3000+r.Intn(24000)) * time.Millisecond)
+			}
 		} else {
 			sess.RefreshDeadline = now.Add(time.Duration(2+r.Intn(58)) * time.Minute).Truncate(time.Second)
 		}
@@ -212,6 +225,12 @@ func runSignIn(rep *vh.Report, env vh.Env, stacks []*stack, other *sut.AuthStack
 			var unsettled bool
 			confirmed, unsettled = validateVerdict(st.prov, intro)
 			dontCare = dontCare || (unsettled && genuine && !lifePast)
+			if near {
+				path = "validate-or-refresh(deadline-seconds-ahead)"
+				if viaRefresh := hasRT && refreshClasses[refr].good; viaRefresh != confirmed && genuine && !lifePast {
+					dontCare = true
+				}
+			}
 		}
 		allowed := genuine && !lifePast && confirmed && emailOK
 		kc.Allowed = allowed
@@ -342,6 +361,9 @@ func runSignIn(rep *vh.Report, env vh.Env, stacks []*stack, other *sut.AuthStack
 				return
 			}
 			rep.Count("signin_refused", 1)
+			if near && genuine && !lifePast && emailOK {
+				rep.Count("signin_near_deadline_refused_no_path_confirms", 1)
+			}
 			for _, f := range failing {
 				rep.Count("signin_refused_with_"+strings.ReplaceAll(f, "-", "_"), 1)
 			}
@@ -360,12 +382,21 @@ func runSignIn(rep *vh.Report, env vh.Env, stacks []*stack, other *sut.AuthStack
 			st.violate(rep, streamSignIn, i, "sign_in: code-issued "+sig, "authorization code issued although the ground truth forbids it; "+detail, kc)
 			return
 		}
+		if near {
+			rep.Count("signin_near_deadline_code_issued_both_paths_confirm", 1)
+		}
 		rep.Count("signin_code_via_"+path, 1)
 		rep.Count("signin_"+st.prov+"_code_via_"+path, 1)
 		// the IdP log must show the confirming call of this very request
 		okCall := false
 		wantTok := tok
-		if due {
+		refreshedNear := false
+		if near {
+			for _, c := range refrCalls {
+				refreshedNear = refreshedNear || c.Status == 200
+			}
+		}
+		if due || refreshedNear {
 			wantTok = newTok
 			for _, c := range refrCalls {
 				okCall = okCall || c.Status == 200
